@@ -29,6 +29,8 @@ mod util;
 
 #[cfg(humphrey_verif)]
 pub mod verif;
+#[cfg(humphrey_verif)]
+pub mod verif_trace;
 
 #[cfg(test)]
 mod tests;
